@@ -9,7 +9,7 @@ import (
 func init() { register("C12", propC12) }
 
 func propC12(c *Ctx) {
-	c.Explanation = "Timing (about 3 s), races between timers and replies beyond mutual exclusion, and what the cache contains after an arbitrary history are NOT decided. Decided are the structural necessary conditions: (T1) arp.HandlePacket answers a request only after CheckLocalAddress(target) != 0, with op = reply, sender hardware = the route's local link address, sender protocol = the request's target, target hardware/protocol = the request's sender fields, written on the inbound route (whose remote link address NIC.DeliverNetworkPacket set to the frame's source); it learns (sender protocol -> sender hardware) from every reply and from exactly those requests it answers; requests are broadcast (route with ff:ff:ff:ff:ff:ff) and carry the link endpoint's own address, the local address and the wanted address in the right fields; the IPv6 neighbour solicitation/advertisement code follows the same table (target = bytes 8..24, CheckLocalAddress, solicited|override flags, target link-address option, source address = target, learning). (T2) typestate: changeState is called only from four sites, each requesting a transition that changeState's own switch allows from every entry state possible at that site (state(): to expired only when not expired; checkLinkRequest: to failed only under state == incomplete; add: to ready only for an incomplete or freshly made entry; makeAndAddEntry: to expired, allowed from everywhere); wakers are asserted and done is closed exactly when the entry leaves incomplete; the state word is written only there and by the slot reset. (T3) cache map, ring index, slots and every entry field are touched only with linkAddrCache.mu held; ring reuse: the old key is deleted exactly when it still maps to the recycled slot, BEFORE the slot is overwritten, and the new key is mapped to the slot after it was filled; next advances by one modulo the ring size; the index stays inside the ring. (T4) constants: 3 attempts, 1 s timeout, 1 min age limit, 512 slots, passed to the cache in that order; failed exactly when attempt+1 >= attempts while still incomplete; a request is sent at the top of every iteration and the loop ends on done or when checkLinkRequest says stop. (T5) get: static address first; ready -> the entry's link address; failed -> ErrNoLinkAddress; incomplete -> register the waker and ErrWouldBlock with the entry's done channel; expired or absent -> (no resolver: ErrNoLinkAddress) new incomplete entry with empty link address, waker registered, resolution goroutine started with that entry's done, ErrWouldBlock; state() expires exactly by time.Now().After(expiration). (T6) nothing is sent before resolution: sendSynTCP in handshake.execute and sendUDP in udp Write are reached only when the route needs no resolution or Resolve/resolveRoute returned nil; Route.Resolve stores the learned address only on success. NOT decided: the 3 s bound, timers racing with replies, cache overflow behaviour beyond T3, RemoveWaker's inverted NIC test (observation)."
+	c.Explanation = "Timing (about 3 s), races between timers and replies beyond mutual exclusion, and what the cache contains after an arbitrary history are (T7) whether resolution is required at all: IsResolutionRequired is exactly linkCache != nil && RemoteLinkAddress == \"\", and addAddressLocked sets linkCache for every endpoint reference (permanent, replaced or temporary) on a link that needs resolution, under exactly the capability and resolver tests, and nowhere else. NOT decided. Decided are the structural necessary conditions: (T1) arp.HandlePacket answers a request only after CheckLocalAddress(target) != 0, with op = reply, sender hardware = the route's local link address, sender protocol = the request's target, target hardware/protocol = the request's sender fields, written on the inbound route (whose remote link address NIC.DeliverNetworkPacket set to the frame's source); it learns (sender protocol -> sender hardware) from every reply and from exactly those requests it answers; requests are broadcast (route with ff:ff:ff:ff:ff:ff) and carry the link endpoint's own address, the local address and the wanted address in the right fields; the IPv6 neighbour solicitation/advertisement code follows the same table (target = bytes 8..24, CheckLocalAddress, solicited|override flags, target link-address option, source address = target, learning). (T2) typestate: changeState is called only from four sites, each requesting a transition that changeState's own switch allows from every entry state possible at that site (state(): to expired only when not expired; checkLinkRequest: to failed only under state == incomplete; add: to ready only for an incomplete or freshly made entry; makeAndAddEntry: to expired, allowed from everywhere); wakers are asserted and done is closed exactly when the entry leaves incomplete; the state word is written only there and by the slot reset. (T3) cache map, ring index, slots and every entry field are touched only with linkAddrCache.mu held; ring reuse: the old key is deleted exactly when it still maps to the recycled slot, BEFORE the slot is overwritten, and the new key is mapped to the slot after it was filled; next advances by one modulo the ring size; the index stays inside the ring. (T4) constants: 3 attempts, 1 s timeout, 1 min age limit, 512 slots, passed to the cache in that order; failed exactly when attempt+1 >= attempts while still incomplete; a request is sent at the top of every iteration and the loop ends on done or when checkLinkRequest says stop. (T5) get: static address first; ready -> the entry's link address; failed -> ErrNoLinkAddress; incomplete -> register the waker and ErrWouldBlock with the entry's done channel; expired or absent -> (no resolver: ErrNoLinkAddress) new incomplete entry with empty link address, waker registered, resolution goroutine started with that entry's done, ErrWouldBlock; state() expires exactly by time.Now().After(expiration). (T6) nothing is sent before resolution: sendSynTCP in handshake.execute and sendUDP in udp Write are reached only when the route needs no resolution or Resolve/resolveRoute returned nil; Route.Resolve stores the learned address only on success. NOT decided: the 3 s bound, timers racing with replies, cache overflow behaviour beyond T3, RemoveWaker's inverted NIC test (observation)."
 
 	t1 := c.Rule("T1", "K1 guards + K5 field provenance", "ARP/NDP reply and learning tables", 30)
 	if fn := c.Fn(t1, "(*arp.endpoint).HandlePacket"); fn != nil {
@@ -172,29 +172,7 @@ func propC12(c *Ctx) {
 
 	t3 := c.Rule("T3", "K4 lockset + K7 coupled updates + K2 order", "cache state under the lock; ring reuse", 20)
 	c.Locks().CheckGuards(c, t3, guardsLinkCache, nil)
-	if fn := c.Fn(t3, "(*stack.linkAddrCache).makeAndAddEntry"); fn != nil {
-		slot := "$0.entries[$0.next]"
-		c.CheckSites(t3, fn, []SiteSpec{
-			{Kind: "call", Target: "builtin:delete", Args: []string{"$0.cache", slot + ".addr"}, Guards: []string{"($0.cache[" + slot + ".addr] == &" + slot + ")"}, Exact: true, N: 1, Why: "the recycled slot's OLD key is unmapped exactly when it still maps to this slot (a newer entry for that key lives elsewhere otherwise)"},
-			{Kind: "call", Target: cs, Args: []string{"&" + slot, "3"}, Guards: []string{}, Exact: true, N: 1, Why: "waiters of the recycled entry are released"},
-			{Kind: "store", Target: "stack.linkAddrEntry.addr", Args: []string{slot, "$1"}, Guards: []string{}, Exact: true, N: 1, Why: "slot reset: key"},
-			{Kind: "store", Target: "stack.linkAddrEntry.linkAddr", Args: []string{slot, "$2"}, Guards: []string{}, Exact: true, N: 1, Why: "slot reset: link address"},
-			{Kind: "store", Target: "stack.linkAddrEntry.expiration", Args: []string{slot, "time.Time.Add(time.Now(), $0.ageLimit)"}, Guards: []string{}, Exact: true, N: 1, Why: "slot reset: expires ageLimit from now"},
-			{Kind: "store", Target: "stack.linkAddrEntry.wakers", Args: []string{slot, "make(map[*sleep.Waker]struct{})"}, Guards: []string{}, Exact: true, N: 1, Why: "slot reset: no waiters"},
-			{Kind: "store", Target: "stack.linkAddrEntry.done", Args: []string{slot, "make(chan struct{}, 0)"}, Guards: []string{}, Exact: true, N: 1, Why: "slot reset: fresh done channel"},
-			{Kind: "mapupdate", Args: []string{"$0.cache", "$1", "&" + slot}, Guards: []string{}, Exact: true, N: 1, Why: "the new key maps to the slot"},
-			{Kind: "store", Target: "stack.linkAddrCache.next", Args: []string{"$0", "(($0.next + 1) % 512)"}, Guards: []string{}, Exact: true, N: 1, Why: "ring advance by one modulo the ring size"},
-			{Kind: "return", Args: []string{"&" + slot}, Guards: []string{}, Exact: true, N: 1, Why: "the filled slot"},
-		})
-		// s is reset to incomplete by the composite literal (no explicit field => zero): no store of s here, and
-		// the literal assigns all other fields; checked by the absence of a partial reset:
-		c.Ordered(t3, fn, []string{"old-key test/delete", "release old waiters", "slot overwrite", "map new key", "ring advance"}, []func(Site) bool{
-			isCall("builtin:delete"), isCall(cs), isStore("stack.linkAddrEntry.addr"),
-			func(s Site) bool { return s.Kind == "mapupdate" }, isStore("stack.linkAddrCache.next"),
-		})
-		an := NewAbsint(c.P)
-		c.boundsObligations(t3, an, fn)
-	}
+	linkCacheRingRule(c, t3)
 
 	t4 := c.Rule("T4", "K12 constants + K1", "retry budget and loop", 8)
 	for _, k := range []struct {
@@ -290,5 +268,62 @@ func propC12(c *Ctx) {
 			{Kind: "return", Args: []string{gl + "#1", gl + "#2"}, Guards: []string{"!(" + gl + "#2 == nil)", req}, Exact: true, N: 1, Why: "errors (incl. would-block with the done channel) are passed through, nothing stored"},
 			{Kind: "return", Args: []string{"nil", "nil"}, N: 3, Why: "resolved / not required"},
 		})
+	}
+
+	// T7: whether a route needs resolution at all. Every sender asks
+	// Route.IsResolutionRequired; it answers from the endpoint reference's
+	// linkCache, which addAddressLocked sets for EVERY endpoint it creates
+	// (permanent or temporary) on a link that needs resolution.
+	t7 := c.Rule("T7", "K9 decision table + K1 exact-guard site table + K3 confinement", "resolution is required exactly when the link needs it and the link address is unknown", 5)
+	if fn := c.Fn(t7, "(*stack.Route).IsResolutionRequired"); fn != nil {
+		noCache, unknown := "($0.ref.linkCache == nil)", "(\"\" == $0.RemoteLinkAddress)"
+		c.CheckTable(t7, fn, []string{noCache, unknown}, func(a map[string]bool) string {
+			if !a[noCache] && a[unknown] {
+				return "true"
+			}
+			return "false"
+		})
+	}
+	if fn := c.Fn(t7, "(*stack.NIC).addAddressLocked"); fn != nil {
+		ne := "iface:stack.NetworkProtocol.NewEndpoint($0.stack.networkProtocols[$1]#0, $0.id, $2, $0.stack, $0, $0.linkEP)#1"
+		c.CheckSitesPresent(t7, fn, []SiteSpec{
+			{Kind: "store", Target: "stack.referencedNetworkEndpoint.linkCache", Args: []string{"new(stack.referencedNetworkEndpoint)", "$0.stack"},
+				Guards: []string{"!((2 & iface:stack.LinkEndpoint.Capabilities($0.linkEP)) == 0)", "$0.stack.linkAddrResolvers[$1]#1", "$0.stack.networkProtocols[$1]#1", "(" + ne + " == nil)"}, Exact: true, N: 1,
+				Why: "every endpoint reference created on a link with CapabilityResolutionRequired, for a protocol that has a resolver, carries the neighbour cache - whatever kind of address it is (permanent, replaced, temporary for spoofing/promiscuous mode)"},
+		})
+	}
+	c.OnlyIn(t7, "store to referencedNetworkEndpoint.linkCache", c.FieldStores("stack.referencedNetworkEndpoint", "linkCache"), "(*stack.NIC).addAddressLocked")
+}
+
+// linkCacheRingRule: the complete reviewed site table and order of
+// linkAddrCache.makeAndAddEntry - the old key of a recycled ring slot is
+// unmapped BEFORE the slot is overwritten, so no key can map to an entry that
+// holds another neighbour's link address. Shared by C12 (T3) and C06 (E7:
+// the Ethernet destination written on the wire is the address this cache
+// returns for the next hop).
+func linkCacheRingRule(c *Ctx, t3 string) {
+	cs := "(*stack.linkAddrEntry).changeState"
+	if fn := c.Fn(t3, "(*stack.linkAddrCache).makeAndAddEntry"); fn != nil {
+		slot := "$0.entries[$0.next]"
+		c.CheckSites(t3, fn, []SiteSpec{
+			{Kind: "call", Target: "builtin:delete", Args: []string{"$0.cache", slot + ".addr"}, Guards: []string{"($0.cache[" + slot + ".addr] == &" + slot + ")"}, Exact: true, N: 1, Why: "the recycled slot's OLD key is unmapped exactly when it still maps to this slot (a newer entry for that key lives elsewhere otherwise)"},
+			{Kind: "call", Target: cs, Args: []string{"&" + slot, "3"}, Guards: []string{}, Exact: true, N: 1, Why: "waiters of the recycled entry are released"},
+			{Kind: "store", Target: "stack.linkAddrEntry.addr", Args: []string{slot, "$1"}, Guards: []string{}, Exact: true, N: 1, Why: "slot reset: key"},
+			{Kind: "store", Target: "stack.linkAddrEntry.linkAddr", Args: []string{slot, "$2"}, Guards: []string{}, Exact: true, N: 1, Why: "slot reset: link address"},
+			{Kind: "store", Target: "stack.linkAddrEntry.expiration", Args: []string{slot, "time.Time.Add(time.Now(), $0.ageLimit)"}, Guards: []string{}, Exact: true, N: 1, Why: "slot reset: expires ageLimit from now"},
+			{Kind: "store", Target: "stack.linkAddrEntry.wakers", Args: []string{slot, "make(map[*sleep.Waker]struct{})"}, Guards: []string{}, Exact: true, N: 1, Why: "slot reset: no waiters"},
+			{Kind: "store", Target: "stack.linkAddrEntry.done", Args: []string{slot, "make(chan struct{}, 0)"}, Guards: []string{}, Exact: true, N: 1, Why: "slot reset: fresh done channel"},
+			{Kind: "mapupdate", Args: []string{"$0.cache", "$1", "&" + slot}, Guards: []string{}, Exact: true, N: 1, Why: "the new key maps to the slot"},
+			{Kind: "store", Target: "stack.linkAddrCache.next", Args: []string{"$0", "(($0.next + 1) % 512)"}, Guards: []string{}, Exact: true, N: 1, Why: "ring advance by one modulo the ring size"},
+			{Kind: "return", Args: []string{"&" + slot}, Guards: []string{}, Exact: true, N: 1, Why: "the filled slot"},
+		})
+		// s is reset to incomplete by the composite literal (no explicit field => zero): no store of s here, and
+		// the literal assigns all other fields; checked by the absence of a partial reset:
+		c.Ordered(t3, fn, []string{"old-key test/delete", "release old waiters", "slot overwrite", "map new key", "ring advance"}, []func(Site) bool{
+			isCall("builtin:delete"), isCall(cs), isStore("stack.linkAddrEntry.addr"),
+			func(s Site) bool { return s.Kind == "mapupdate" }, isStore("stack.linkAddrCache.next"),
+		})
+		an := NewAbsint(c.P)
+		c.boundsObligations(t3, an, fn)
 	}
 }
